@@ -22,6 +22,8 @@ import (
 type BytesCase struct {
 	Text string `json:"text,omitempty"`
 	B64  string `json:"b64,omitempty"`
+	// MustReject: the input is a valid JSON stream with a stray closing bracket inserted at a document boundary
+	MustReject bool `json:"must_reject,omitempty"`
 }
 
 func mkBytes(b []byte) BytesCase {
@@ -42,7 +44,21 @@ func (c BytesCase) bytes() []byte {
 var patchTokens = []string{"operation", "Create", "CreateOrUpdate", "CreateIfNotExists", "Delete", "DeleteInBackground", "DeleteNonCascading", "JQPatch", "MergePatch", "JSONPatch", "object", "apiVersion", "v1", "kind", "ConfigMap", "namespace", "name", "metadata", "jqFilter", ".data.a = 1", "mergePatch", "jsonPatch", "subresource", "status", "ignoreMissingObject", "ignoreHookError", "true", "null", "1", "-1", "1e999", ":", " ", "\n", "- ", "{", "}", "[", "]", ",", "\"", "---", "|", ">", "&a", "*a", "!!binary", "\t", "op", "add", "path", "/data/x", "value"}
 
 func genPatchBytes(t *rapid.T) BytesCase {
-	switch rapid.IntRange(0, 2).Draw(t, "mode") {
+	switch rapid.IntRange(0, 3).Draw(t, "mode") {
+	case 3:
+		// a valid JSON stream with a stray closing bracket at a document boundary: not a stream of documents
+		c := gen(t)
+		for i := range c.Docs {
+			c.Docs[i].Fault = ""
+		}
+		format := rapid.SampledFrom([]string{"json-concat", "json-lines"}).Draw(t, "jformat")
+		cut := rapid.IntRange(1, len(c.Docs)).Draw(t, "cut")
+		stray := rapid.SampledFrom([]string{"}", "]", "\n}\n", " ] "}).Draw(t, "stray")
+		b := append(render(c.Docs[:cut], format), []byte(stray)...)
+		b = append(b, render(c.Docs[cut:], format)...)
+		bc := mkBytes(b)
+		bc.MustReject = true
+		return bc
 	case 0:
 		return mkBytes(rapid.SliceOfN(rapid.Byte(), 0, 200).Draw(t, "bytes"))
 	case 1:
@@ -108,6 +124,12 @@ func runPatchBytes(c BytesCase) (ev.Info, error) {
 		if o.panicked != "" {
 			return info, fmt.Errorf("patch file content %q: panic: %s", text, o.panicked)
 		}
+		if o.accepted && c.MustReject {
+			return info, fmt.Errorf("a JSON stream with a stray closing bracket between its documents was accepted (%d operations): %q", o.nops, text)
+		}
+		if c.MustReject {
+			info.Labels = append(info.Labels, "stray-bracket-rejected")
+		}
 		if o.accepted {
 			info.Labels = append(info.Labels, "accepted")
 			info.NonTrivial = o.nops > 0
@@ -121,7 +143,7 @@ func runPatchBytes(c BytesCase) (ev.Info, error) {
 	return info, nil
 }
 
-const ruleBytes = "arbitrary byte strings as patch file content (random bytes, random sequences of patch-file tokens, 1-4 byte/token mutations of rendered valid streams in the three renderings) given to ParseOperations: it neither panics nor hangs, and every returned operation is non-nil and describable. Non-trivial: accepted with >= 1 operation, or rejected with more than 8 bytes."
+const ruleBytes = "arbitrary byte strings as patch file content (random bytes, random sequences of patch-file tokens, 1-4 byte/token mutations of rendered valid streams in the three renderings, valid JSON streams with a stray closing bracket inserted at a document boundary - these must be rejected) given to ParseOperations: it neither panics nor hangs, and every returned operation is non-nil and describable. Non-trivial: accepted with >= 1 operation, or rejected with more than 8 bytes."
 
 func TestPatchBytes(t *testing.T) {
 	ev.Main(t, ev.Spec[BytesCase]{Property: "C13", Part: "bytes", Rule: ruleBytes, Gen: genPatchBytes, Run: runPatchBytes, Journal: true})
